@@ -501,3 +501,10 @@ def r09_9(ctx):
         ctx.need(folded, f"{cb}: no folding path found (decisions: {[o.decisions[:2] for o in outs][:3]})")
         obs = sorted({("raises " + str(o.value)[:30]) if o.kind == "raise" else lab(o.value) for o in folded})
         ctx.check(f"{cb}: the folded constant is handed on as it is", obs == ["folded"], "the folder's result", str(obs)[:140], fn_where(idx, fi))
+
+
+@rule("R09.10", "C09", "what the compiler evaluates itself is decided by the folders alone: an expression callback builds the same node for a literal / truth-value operand as for any other operand (a callback-local shortcut is a second, unchecked folder)", min_instances=20)
+def r09_10(ctx):
+    from .c02 import r02_8
+
+    r02_8(ctx)
